@@ -174,7 +174,12 @@ func Run(t *testing.T, opt Options, scenario func(e *Env)) *Outcome {
 		out.Wall = time.Since(t0)
 	}()
 
-	func() {
+	// synctest.Test calls t.FailNow (runtime.Goexit) when the bubble's test is marked failed - which the testing
+	// package does on its own when the race detector has reported anything.  Run it on a helper goroutine so
+	// that the caller survives and can still collect the outcome.
+	doneCh := make(chan struct{})
+	go func() {
+		defer close(doneCh)
 		defer func() {
 			if p := recover(); p != nil {
 				out.Deadlock = fmt.Sprint(p)
@@ -193,6 +198,7 @@ func Run(t *testing.T, opt Options, scenario func(e *Env)) *Outcome {
 			curEnv = nil
 		})
 	}()
+	<-doneCh
 	out.Env = env
 	if out.Res == nil {
 		// the bubble blew up before Run returned: treat as infrastructure trouble
@@ -236,13 +242,13 @@ func (e *Env) Serve(p erpc.Peer, addr string, proto ...erpc.ProtoFunc) *simnet.L
 func (e *Env) ServePair(a, b erpc.Peer, protoA, protoB erpc.ProtoFunc) (sa, sb erpc.Session, ca, cb *simnet.Conn) {
 	ca, cb = e.Net.Pair()
 	var stA, stB *erpc.Status
-	done := 0
+	done := &Cnt{}
 	simrt.GoNamed("serveconn", func() {
 		sb, stB = b.ServeConn(cb, protoB)
-		done++
+		done.Inc()
 	})
 	sa, stA = a.ServeConn(ca, protoA)
-	simrt.WaitCond(func() bool { return done == 1 })
+	simrt.WaitCond(func() bool { return done.Get() == 1 })
 	if !stA.OK() || !stB.OK() {
 		e.Notes = append(e.Notes, fmt.Sprintf("ServePair: %v %v", stA, stB))
 	}
@@ -286,3 +292,16 @@ func (e *Env) CheckSettled(class string, info ...string) {
 	}
 	_ = native
 }
+
+// Cnt is a counter shared by harness tasks that rely on the scheduler token instead of locks; its methods are
+// invisible to the race detector (no report, no happens-before edge).
+type Cnt struct{ n int }
+
+//go:norace
+func (c *Cnt) Inc() { c.n++ }
+
+//go:norace
+func (c *Cnt) Dec() { c.n-- }
+
+//go:norace
+func (c *Cnt) Get() int { return c.n }
